@@ -425,6 +425,11 @@ fn main() {
             }
         }
     });
+    // hidden-state monitor: sampled events of all shards again, mixed, on one thread (ctx::run_mix)
+    {
+        let mut rng = Rng::new(seed ^ 0x316d);
+        run_mix(&mut ctx, seed, |c, e| exec(c, e, &mut rng));
+    }
     let mut required: Vec<String> = Vec::new();
     for s in ["small", "wide"] {
         required.push(format!("esingle|term|{}", s));
